@@ -254,12 +254,19 @@ def gen_c13(rng: random.Random, tier: str) -> dict:
         nprog = rng.choice([1, 1, 2, 3])
         names = []
         for k in range(nprog):
+            # await of a future the task cancelled itself: also an error
+            # raised by the runtime on the task's behalf
+            dead = not calm and rng.random() < 0.12
             prog = tasktree.gen_program(
                 rng, max_nodes=rng.choice([4, 8, 15] + ([30] if big else [])),
                 max_depth=rng.randint(2, 3), max_fanout=rng.randint(2, 4),
                 raises=0 if calm else rng.choice([0, 0, 0, 1, 1, 2]),
                 logs=True, id_base=10000 * ci + 1000 * k,
+                cancels=dead, await_cancelled=dead,
             )
+            if not calm and not dead and rng.random() < 0.15:
+                # errors the runtime itself raises on behalf of a task
+                tasktree.place_foreign_await(rng, prog)
             script.append({'op': 'submit', 'as': f't{k}', 'prog': prog})
             names.append(f't{k}')
         if mode < 0.3 and ci == 0:
